@@ -14,7 +14,7 @@ else
   patch=$1; shift
   (cd "$scratch" && patch -p1 -s < "$patch") || { echo "MUTCHECK: patch failed"; rm -rf "$scratch"; exit 9; }
 fi
-cd /verif
+cd "$(dirname "$0")/.."
 PYDV_REPO="$scratch" PYDV_EVIDENCE_DIR="$scratch/_ev" PYDV_REPLAY_DIR="$scratch/_rp" ./check "$prop" "$@" | grep -v "^  NOT DISCHARGED" | tail -12
 rc=${PIPESTATUS[0]}
 echo "MUTCHECK exit=$rc"
